@@ -269,3 +269,34 @@ def db_lines_for(query_lines):
             lines.append(f"db {h} NONE")
         # lookup errors: leave the phrase unknown (the model answers lookupError as well)
     return lines
+
+
+def run_driver(lines, header=(), chunk=400, chunk_timeout=90):
+    """Run the model driver on `lines` in chunks with a time limit per chunk; a chunk
+    that does not finish is bisected, and a single line that does not finish is
+    answered `MODEL-TIMEOUT` (the model is executable but not resource-bounded)."""
+    header = list(header)
+    out = []
+
+    def go(part):
+        if not part:
+            return []
+        try:
+            p = subprocess.run([driver_bin()], input="\n".join(header + part) + "\n", capture_output=True,
+                               text=True, timeout=chunk_timeout + (5 if len(part) > 1 else 0))
+            res = p.stdout.split("\n")
+            if res and res[-1] == "":
+                res.pop()
+            res = res[len(header):]
+            if len(res) == len(part):
+                return res
+        except subprocess.TimeoutExpired:
+            pass
+        if len(part) == 1:
+            return ["MODEL-TIMEOUT"]
+        mid = len(part) // 2
+        return go(part[:mid]) + go(part[mid:])
+
+    for i in range(0, len(lines), chunk):
+        out.extend(go(lines[i:i + chunk]))
+    return out
